@@ -54,6 +54,7 @@ Qed.
 Section Policy.
   Variable sp : start_policy.
   Hypothesis Hsp : sp = StartUpToMax.
+  Variable wp : wait_policy.
 
   Lemma start_processes_limit e : List.length (running e) <= maxw e ->
     List.length (running (start_processes sp e)) <= maxw e /\
@@ -72,28 +73,31 @@ Section Policy.
   Definition within (e : ex) : Prop := List.length (running e) <= maxw e.
   Definition full (e : ex) : Prop := pendq e <> [] -> List.length (running e) = maxw e.
 
-  Theorem exstep_within e o : within e -> within (exstep sp e o) /\ maxw (exstep sp e o) = maxw e.
+  Theorem exstep_within e o : within e -> within (exstep sp wp e o) /\ maxw (exstep sp wp e o) = maxw e.
   Proof.
     unfold within. intros H. destruct o as [|envs| |]; cbn [exstep].
     - unfold submit. match goal with |- context [start_processes sp ?x] => destruct (start_processes_limit x) as (A & _ & C) end;
         [exact H|]. cbn [maxw] in *. split; [exact A|exact C].
-    - unfold wait. destruct (fold_env_fields envs e) as (A & B & C & _). cbn zeta in *.
+    - destruct (fold_env_fields envs e) as (A & B & C & _). cbn zeta in *.
       destruct (consume_fields (fold_left env envs e)) as (A' & B' & C' & D').
-      destruct (start_processes_limit (consume (fold_left env envs e))) as (X & _ & Z); [lia|]. split; [lia|congruence].
+      destruct (start_processes_limit (consume (fold_left env envs e))) as (X & _ & Z); [lia|].
+      unfold wait. destruct wp; [split; [lia|congruence]| |split; [lia|congruence]].
+      destruct (rqueue (fold_left env envs e)); split; try lia; congruence.
     - cbn [cancel running maxw]. split; [exact H|reflexivity].
     - cbn [stop running maxw List.length]. split; [lia|reflexivity].
   Qed.
 
-  Theorem worker_limit ops : forall e, within e -> forall e', In e' (states sp e ops) -> within e'.
+  Theorem worker_limit ops : forall e, within e -> forall e', In e' (states sp wp e ops) -> within e'.
   Proof.
     induction ops as [|o ops IH]; intros e H e' [<-|Hin]; try exact H; [destruct Hin|].
-    apply (IH (exstep sp e o)); [now apply exstep_within|exact Hin].
+    apply (IH (exstep sp wp e o)); [now apply exstep_within|exact Hin].
   Qed.
 
   (* after every submit and every wait (the executor's rest points) no future is pending while a worker slot is free *)
-  Theorem rest_full e o : within e -> match o with XSubmit | XWait _ => full (exstep sp e o) | _ => True end.
+  Hypothesis Hwp : wp = WaitAlwaysStarts.
+  Theorem rest_full e o : within e -> match o with XSubmit | XWait _ => full (exstep sp wp e o) | _ => True end.
   Proof.
-    unfold within, full. intros H. destruct o as [|envs| |]; cbn [exstep]; try exact I.
+    unfold within, full. intros H. subst wp. destruct o as [|envs| |]; cbn [exstep]; try exact I.
     - unfold submit. match goal with |- context [start_processes sp ?x] => destruct (start_processes_limit x) as (_ & B & C) end;
         [exact H|]. cbn [maxw] in *. intros Hp. rewrite C. now apply B.
     - unfold wait. destruct (fold_env_fields envs e) as (A & B & C & _). cbn zeta in *.
@@ -186,7 +190,7 @@ Example init_running_not_done w : running_not_done (init_ex w).
 Proof. intros i H. discriminate. Qed.
 (* a concrete run with a kill: two workers, three futures, the first worker is killed, the second finishes *)
 Example ex_dead_detected :
-  let e := fold_left (exstep StartUpToMax) [XSubmit; XSubmit; XSubmit; XWait [EnvKill 0; EnvPut 1 true; EnvExit 1]] (init_ex 2) in
+  let e := fold_left (exstep StartUpToMax WaitAlwaysStarts) [XSubmit; XSubmit; XSubmit; XWait [EnvKill 0; EnvPut 1 true; EnvExit 1]] (init_ex 2) in
   obs_of e = {| xo_running := [2]; xo_pendq := []; xo_done := [(0, 2); (1, 1)] |}.
 Proof. vm_compute. reflexivity. Qed.
 
@@ -385,11 +389,13 @@ Proof.
   - intros i [Hi|Hi]; [apply D; now left|discriminate].
 Qed.
 
-Theorem ExInv_exstep sp e o : ExInv e -> ExInv (exstep sp e o).
+Theorem ExInv_exstep sp wp e o : ExInv e -> ExInv (exstep sp wp e o).
 Proof.
   intros H. destruct o as [|envs| |]; cbn [exstep].
   - now apply ExInv_submit.
-  - unfold wait. apply ExInv_start_processes. apply ExInv_consume. now apply ExInv_fold_env.
+  - assert (Hc : ExInv (consume (fold_left env envs e))) by (apply ExInv_consume; now apply ExInv_fold_env).
+    unfold wait. destruct wp; [now apply ExInv_start_processes| |exact Hc].
+    destruct (rqueue (fold_left env envs e)); [exact Hc|now apply ExInv_start_processes].
   - now apply ExInv_cancel.
   - now apply ExInv_stop.
 Qed.
@@ -403,17 +409,28 @@ Proof.
   - intros i [[]|H]. discriminate.
 Qed.
 
-Theorem ExInv_states sp ops : forall e, ExInv e -> forall e', In e' (states sp e ops) -> ExInv e'.
+Theorem ExInv_states sp wp ops : forall e, ExInv e -> forall e', In e' (states sp wp e ops) -> ExInv e'.
 Proof.
   induction ops as [|o ops IH]; intros e H e' [<-|Hin]; try exact H; [destruct Hin|].
-  apply (IH (exstep sp e o)); [now apply ExInv_exstep|exact Hin].
+  apply (IH (exstep sp wp e o)); [now apply ExInv_exstep|exact Hin].
 Qed.
 
 (* hence, with no assumption left: at every point of every call sequence, a worker that is dead when a wait() begins is
    failed (or finished, if its result had been queued) and removed by that wait() *)
-Theorem dead_detected_always sp ops w e i : In e (states sp (init_ex w) ops) -> In i (dead_ids e) ->
+Theorem dead_detected_always sp wp ops w e i : In e (states sp wp (init_ex w) ops) -> In i (dead_ids e) ->
   done (fut_of (consume e) i) = true /\ has (running (consume e)) i = false.
 Proof.
-  intros He Hi. pose proof (ExInv_states sp ops (init_ex w) (ExInv_init w) e He) as HI.
+  intros He Hi. pose proof (ExInv_states sp wp ops (init_ex w) (ExInv_init w) e He) as HI.
   split; [now apply dead_worker_done|]. apply dead_worker_removed; [now apply ExInv_running_not_done|exact Hi].
+Qed.
+
+(* A wait() that starts queued futures only when a result was received leaves a slot idle after a worker death: with one
+   worker slot, two submissions and the running worker killed, the second future stays queued with nothing running. *)
+Theorem wait_if_received_refuted :
+  exists e o, List.length (running e) <= maxw e /\
+    match o with XWait _ => pendq (exstep StartUpToMax WaitStartsIfReceived e o) <> [] /\
+                            List.length (running (exstep StartUpToMax WaitStartsIfReceived e o)) < maxw e | _ => False end.
+Proof.
+  exists (fold_left (exstep StartUpToMax WaitStartsIfReceived) [XSubmit; XSubmit] (init_ex 1)), (XWait [EnvKill 0]).
+  vm_compute. split; [lia|]. split; [discriminate|lia].
 Qed.
